@@ -232,6 +232,16 @@ def run(ctx, R, tier):
             accepted |= {e.value for e in n.comparators[0].elts if isinstance(e, ast.Constant)}
     R.check(tested == accepted == {"single", "session", "percall"}, "C09-R6", "modes|agree", "tested modes = accepted modes = {single, session, percall}", f.loc(),
             "_getInstance tests %s, behavior accepts %s" % (sorted(tested), sorted(accepted)))
+    regf = ctx.fn("Pyro5.server.Daemon.register")
+    rcfg = ctx.cfg(regf)
+    dst = [n for st, t, k in stores_in(regf.node) if k == "assign" and isinstance(t, ast.Attribute) and t.attr == "_pyroInstancing" for n in rcfg.nodes_for(st)]
+
+    def no_instancing(atom, pol):
+        return pol is False and isinstance(atom, ast.Call) and isinstance(atom.func, ast.Name) and atom.func.id == "hasattr" and len(atom.args) == 2 and \
+            isinstance(atom.args[1], ast.Constant) and atom.args[1].value == "_pyroInstancing"
+    R.check(bool(dst) and all(rcfg.guarded(n, lambda e: edge_has_fact(e, no_instancing)) for n in dst), "C09-R6", "register|default-only-if-unset",
+            "register() defaults the instance mode only if the class has none, own or inherited (hasattr)", regf.loc(),
+            "the default ('session', None) is stored although the class inherits a @behavior setting: an inherited 'single'/'percall' class silently becomes per-session")
     # else branch raises: function exit (fall-through) must not be reachable without return/raise
     ok = not any(e.kind != "exc" for e in cfg.exit.pred if e.src.id in cfg.live() and (e.src.kind != "stmt" or not isinstance(e.src.ast, ast.Return)))
     R.check(ok, "C09-R6", "modes|unknown-raises", "an unknown instance mode raises", f.loc(), "_getInstance can fall through and return None for an unknown mode")
